@@ -73,7 +73,11 @@ REQUIRED_THEOREMS = ["block_opt_roundtrip", "blocks_tile_body", "rblock_represen
                      "request_tag_tells_transfers_apart", "never_wrong_body_block2_composed_partial",
                      "never_wrong_body_block1_composed_partial", "response_path_params_ok",
                      "block2_unsolicited_dropped", "at_most_once_block2_unsolicited", "at_most_once_block2_non",
-                     "nack_shows_application_token", "nack_token_of_its_transfer", "application_token_left_alone"]
+                     "nack_shows_application_token", "nack_token_of_its_transfer", "application_token_left_alone",
+                     "at_most_once_block1_run", "block1_replay_without_block0_never_delivers",
+                     "block1_replayed_last_block_never_delivers", "at_most_once_block2_run",
+                     "block2_replay_without_block0_never_delivers", "block2_replays_after_completion_dropped",
+                     "per_block_tiles_once_composed"]
 RULE = ("Layer A: block option values (all single bytes, random 0-3 byte values, boundary NUMs), setup_block_b / coap_write_block_b_opt / "
         "coap_add_data_large_request with the available room around every power of two, slices of bodies whose length is k*2^(szx+4)+{-1,0,1} "
         "for szx 0..6 and random lengths to 64 KiB, every 3-insertion sequence over 5 block numbers plus random longer ones for the received "
